@@ -203,10 +203,16 @@ func (b *Backend) markOpEnd() {
 	b.Srv.ClearFaults()
 	log := b.Srv.Log()
 	b.opEnd = len(log)
-	// A COMMIT / ROLLBACK that fails on the wire ends the transaction on a real server (and
-	// database/sql considers it ended); pgfake's injected fault leaves the MODELLED session inside
-	// its failed transaction: end it, as the server would.
-	for _, s := range log {
+	b.healSessions(0)
+}
+
+// healSessions: a COMMIT / ROLLBACK that fails on the wire ends the transaction on a real server
+// (and database/sql considers it ended, handing the connection back to the pool); pgfake's injected
+// fault leaves the MODELLED session inside its failed transaction: end it, as the server would.
+func (b *Backend) healSessions(from int) {
+	log := b.Srv.Log()
+	for i := from; i < len(log); i++ {
+		s := log[i]
 		if s.Err == "" {
 			continue
 		}
@@ -394,6 +400,9 @@ func (s *tstore) leave(idx int, err error) error {
 	b.curCall = -1
 	if idx < len(b.callRanges) {
 		b.callRanges[idx][1] = len(b.Srv.Log())
+		if err != nil && (b.trace[idx].M == "Commit" || b.trace[idx].M == "Rollback") {
+			b.healSessions(b.callRanges[idx][0])
+		}
 	}
 	// a store-call fault armed for this call that no statement consumed must not leak into the next call
 	if b.fault != nil && b.fired && b.calls == b.fault.At {
